@@ -9,7 +9,9 @@ C20.c  StaticArrayT / DynamicArrayT accessor and iteration shapes.
 C20.d  G1: whole-array operations cover the full extent.
 An unrecognised *shape* is "analysis broken" (exit 2); a recognised shape with the wrong constant, operator, extent or
 order is a violation.
-Not decided: equivalence with the mathematical model over all operation sequences.
+C20.e  [bit provenance] per-operation refinement of the set-of-integers model for every instantiated capacity and every index.
+Not decided: fixed/growable array element values over all sequences (only their accessor shapes, C20.c); capacities outside the
+witness family are covered by the structural rules C20.a-d only.
 """
 from lint import facts, ir, effects, loops, cfg as cfgmod
 from lint.common import AnalysisBroken
@@ -30,10 +32,23 @@ def storage_extent(F, fn, field='_storage'):
     return None
 
 
-def bit_index_rules(run, F, E):
+def bit_index_rules(run, F, E, decided=()):
+    """shape rule; where the shape is not the recognised one but C20.e has decided the operation semantically (for every index),
+    the shape rule steps aside (a note, not a refusal): an unrecognised but correct rewrite must stay silent, a wrong one is
+    reported by C20.e."""
     for fn in F.find('BitArrayT'):
         if fn.m not in ('get', 'set', 'clear') or len(fn.params) != 1:
             continue
+        try:
+            bit_index_rule(run, F, E, fn, (capacity_of(F, fn)[0], fn.m, 1) in decided)
+        except AnalysisBroken as e:
+            if (capacity_of(F, fn)[0], fn.m, 1) not in decided:
+                raise
+            run.note('C20.a steps aside for %s (decided by C20.e): %s' % (fn.short, e))
+
+
+def bit_index_rule(run, F, E, fn, decided_semantically=False):
+    if True:
         cap, units = capacity_of(F, fn)
         decls = E.decls(fn)
         pname = fn.params[0]['n']
@@ -71,12 +86,16 @@ def bit_index_rules(run, F, E):
         want_unit = '(%s / 8)' % pname
         want_mask = '(1 << (%s %% 8))' % pname
         ok = op_ok and ir.pp(ir.strip(cell['b'])) == '_storage' and unit == want_unit and ir.pp(mask) == want_mask
+        if not ok and decided_semantically:
+            # a different spelling: whether it is right is C20.e's verdict (every index evaluated), not this shape rule's
+            run.note('C20.a: %s is not spelled unit = i/8, mask = 1 << i%%8; left to C20.e' % inst)
+            return
         run.ob('C20.a', '%s: unit = i div 8, mask = 1 << (i mod 8), operator %s' % (inst, {'get': '& != 0', 'set': '|=', 'clear': '&= ~'}[fn.m]), ok,
                where=fn.pat, detail=None if ok else {'unit': unit, 'mask': ir.pp(mask), 'operator_ok': op_ok},
                key='BitArrayT::%s(i) addresses the wrong unit/bit or applies the wrong operator' % fn.m)
 
 
-def invariant_rules(run, F, E):
+def invariant_rules(run, F, E, decided=()):
     """classify every write to _storage in every BitArrayT member"""
     for fn in F.find('BitArrayT'):
         cap, units = capacity_of(F, fn)
@@ -123,6 +142,9 @@ def invariant_rules(run, F, E):
             else:
                 unknown = 'operator %s on a storage unit' % x['op']
         if unknown:
+            if (cap, fn.m, len(fn.params)) in decided:
+                run.note('C20.b steps aside for %s (decided by C20.e): %s' % (fn.short, unknown))
+                continue
             raise AnalysisBroken('BitArrayT::%s: %s' % (fn.m, unknown))
         if not effects_on_last:
             continue
@@ -307,30 +329,126 @@ def array_rules(run, F, E):
             run.ob('C20.c', 'DynamicArrayT::clear resets the count', ok, where=fn.pat, key='DynamicArrayT::clear does not reset the count')
 
 
+
+def refinement(run, F):
+    """C20.e: per-operation refinement of the set-of-integers model, decided by bit-provenance abstract interpretation for every
+    instantiated capacity and *every* index below it: set(i) makes exactly bit i one, clear(i) makes exactly bit i zero, get(i)
+    returns exactly bit i, set()/clear() make every valid bit one/zero, &= ANDs bit by bit -- and every operation keeps the padding
+    bits zero. With the representation invariant (C20.b) this is a simulation argument covering all operation sequences for these
+    capacities."""
+    from lint import bitprov
+    from lint.bitprov import const_bits, W
+    I = bitprov.Interp(F)
+    seen = set()
+    decided = set()
+    for fn in F.find('BitArrayT'):
+        cap, units = capacity_of(F, fn)
+        if cap is None or fn.kind in ('ctor', 'dtor'):
+            continue
+        ext = storage_extent(F, fn)
+
+        def fresh(tag):
+            return [tuple((tag, by * 8 + k) if by * 8 + k < cap else 0 for k in range(8)) + (0,) * (W - 8) for by in range(ext)]
+
+        def bit(data, p):
+            return data[p // 8][p % 8]
+        key = (cap, fn.m, len(fn.params), fn.params[0]['ty'] if fn.params else '')
+        if key in seen:
+            continue
+        seen.add(key)
+        bad = None
+        cases = 0
+        try:
+            if fn.m in ('get', 'set', 'clear') and len(fn.params) == 1:
+                for i in range(cap):
+                    data = fresh('s')
+                    res = I.run(fn, {'_storage': data}, [const_bits(i)])
+                    cases += 1
+                    for p in range(ext * 8):
+                        want = ('s', p) if p < cap else 0
+                        if p == i and fn.m == 'set':
+                            want = 1
+                        if p == i and fn.m == 'clear':
+                            want = 0
+                        if bit(data, p) != want and bad is None:
+                            bad = {'index': i, 'storage bit': p, 'holds': str(bit(data, p)), 'expected': str(want)}
+                    if fn.m == 'get' and bad is None and (res[0] != ('s', i) or any(b != 0 for b in res[1:8])):
+                        bad = {'index': i, 'returns': str(res[:2]), 'expected': "('s', %d)" % i}
+                what = '%s(i) for every i < %d: %s' % (fn.m, cap, {'get': 'returns exactly bit i and changes nothing', 'set': 'sets exactly bit i',
+                                                                   'clear': 'clears exactly bit i'}[fn.m])
+            elif fn.m in ('set', 'clear') and not fn.params:
+                data = fresh('s')
+                I.run(fn, {'_storage': data}, [])
+                cases += 1
+                for p in range(ext * 8):
+                    want = (1 if fn.m == 'set' else 0) if p < cap else 0
+                    if bit(data, p) != want and bad is None:
+                        bad = {'storage bit': p, 'holds': str(bit(data, p)), 'expected': str(want)}
+                what = '%s(): every valid bit becomes %d, padding stays 0' % (fn.m, 1 if fn.m == 'set' else 0)
+            elif fn.m == 'operator&=':
+                data = fresh('s')
+                other = fresh('o')
+                # `other` is a reference parameter to another bit array: bind it as an object
+                env_this = {'_storage': data}
+                oth = {'_storage': other}
+                p0 = fn.params[0]
+                env = {p0['id']: ['ref', ('obj', oth), None]}
+                # run with a pre-bound environment
+                try:
+                    I.stmt(fn.body, fn, env_this, env, 0)
+                except bitprov._Ret:
+                    pass
+                cases += 1
+                for p in range(ext * 8):
+                    want = ('and',) + tuple(sorted([('s', p), ('o', p)], key=repr)) if p < cap else 0
+                    if bit(data, p) != want and bad is None:
+                        bad = {'storage bit': p, 'holds': str(bit(data, p)), 'expected': str(want)}
+                what = 'operator&=: bit p becomes (this[p] AND other[p]) for every p < %d, padding stays 0' % cap
+            else:
+                continue
+        except bitprov.Refuse as e:
+            raise AnalysisBroken('BitArrayT<%s>::%s is outside the bit-provenance fragment: %s' % (cap, fn.m, e))
+        run.ob('C20.e', 'BitArrayT<%d>::%s' % (cap, what), bad is None, where=fn.pat, detail=bad,
+               key='BitArrayT::%s%s does not refine the set-of-integers model' % (fn.m, '(i)' if fn.params and fn.m != 'operator&=' else '()'))
+        run.count('bit-provenance cases', cases)
+        decided.add((cap, fn.m, len(fn.params)))
+    return decided
+
+
 def run(run):
     cfgs = ['PS'] if run.tier == 'quick' else ['PS', 'PSHL', 'PSHVRDT']
     jobs = [('w_shared', c, v, s) for c in cfgs for v in facts.variants(run.tier) for s in (['c++11'] if run.tier == 'quick' else ['c++11', 'c++17'])]
     # the bit arrays as instantiated inside real machines, too
     jobs += [('w_core', 'P', v, 'c++11') for v in facts.variants(run.tier)]
+    # every capacity 1..255 (all bit-array rules; quick: one header variant, thorough: every variant and both standards)
+    jobs += [('w_bitarrays', 'PS', v, s) for v in (facts.variants(run.tier)[:1] if run.tier == 'quick' else facts.variants(run.tier))
+             for s in (['c++11'] if run.tier == 'quick' else ['c++11', 'c++17'])]
     facts.prefetch(jobs)
     for (w, c, v, s) in jobs:
         F = facts.load(w, c, v, s)
         run.require(F.unknown == 0, 'unknown AST nodes in %s' % F.label())
         E = effects.Effects(F)
         run.count('fact units')
-        bit_index_rules(run, F, E)
-        invariant_rules(run, F, E)
+        decided = refinement(run, F)
+        bit_index_rules(run, F, E, decided)
+        invariant_rules(run, F, E, decided)
         extent_rules(run, F, E)
-        array_rules(run, F, E)
+        if w != 'w_bitarrays':
+            array_rules(run, F, E)
         facts.drop(F)
         cfgmod.clear_cache()
     run.floor('C20.a', 20)
     run.floor('C20.b', 20)
     run.floor('C20.c', 15)
     run.floor('C20.d', 20)
+    run.floor('C20.e', 1500)
     run.explanation = (
         'Sibling agreement of the get/set/clear index arithmetic after normalisation, a representation-invariant argument '
         'for the padding bits of the last storage unit (each write to the storage is classified; the invariant is established '
         'by the constructor, preserved by every mutator and relied on by empty()), full-extent rules for every whole-array '
         'operation and shape rules for the array accessors and iteration, over capacities {1,7,8,9,12,16,17,255} (bit arrays), '
-        '{1,2,7,8,255} (arrays) and the bit arrays of real machines. Model equivalence over all operation sequences is not decided.')
+        '{1,2,7,8,255} (arrays) and the bit arrays of real machines; the bit-array rules additionally over every capacity 1..255 '
+        '(w_bitarrays). C20.e decides, by bit-provenance abstract interpretation of every instantiated operation for every index '
+        'below the capacity, that each operation refines the set-of-integers model and keeps the padding bits zero: with the '
+        'representation invariant this covers every operation sequence. Fixed/growable array element values over sequences are '
+        'decided only through the accessor/iteration shape rules (C20.c).')
